@@ -79,6 +79,8 @@ pub fn key_table(u: i64, dmax: i64, advmax: i64, w: &[u32; 8]) -> Vec<OpSpec> {
         spec(if dmax >= 100 { 1 } else { 0 }, K_ADV, &[dmax / 2..=dmax]),
         spec(if dmax >= 100 && w[1] + w[2] + w[4] > 0 { 1 } else { 0 }, K_DRAIN, &[32..=400]),
         spec(if u >= 64 && w[0] > 0 { (w[0] / 12).max(1) } else { 0 }, K_RUN, &[0..=u - 1, 1..=80, 0..=1, 0..=dmax]),
+        // entries that never expire (expiration == the type's maximum)
+        spec((w[0] / 10).max(if w[0] > 0 { 1 } else { 0 }), K_INS, &[0..=u - 1, 500_000..=500_000]),
     ]
 }
 
@@ -126,6 +128,9 @@ pub fn key_clear_cases_sized(prop: &'static str, coll: &'static str, us: Vec<i64
             (ops_strategy(&pre, prefix.clone()), 0..=advmax + 1, ops_strategy(&suf, 0..=suffix_len), prop::option::weighted(0.5, 0..=dmax + 1)).prop_map(move |(a, c0, b, fin)| {
                 let mut c = Case::new(prop, "key");
                 c.set("coll", coll).set("cap", cap).set("U", u);
+                if (c0 + a.len() as i64) % 6 == 0 {
+                    c.set("clock0", i32::MAX as i64 - 6);
+                }
                 c.ops = a;
                 c.ops.push(RawOp::new(K_CLEAR, &[c0]));
                 c.ops.extend(b);
@@ -314,6 +319,7 @@ pub fn seg_hot_cases(prop: &'static str, w: [u32; 7], len: RangeInclusive<usize>
 pub fn seg_table(w: &[u32; 7]) -> Vec<OpSpec> {
     vec![
         spec(w[0], S_INS, &[0..=31, 0..=11, 0..=31, 0..=11, 0..=4]),
+        spec((w[0] / 10).max(if w[0] > 0 { 1 } else { 0 }), S_INS, &[0..=31, 0..=11, 0..=31, 0..=11, 9..=9]),
         spec(w[1], S_QUERY, &[0..=31, 0..=11, 0..=31, 0..=11, 0..=5]),
         spec(w[2], S_ADV, &[0..=2]),
         spec(w[3], S_CLEAR, &[0..=2]),
@@ -331,10 +337,14 @@ pub fn seg_cases(prop: &'static str, mix: SegMix) -> BoxedStrategy<Case> {
     };
     let table = seg_table(&mix.w);
     let len = mix.len.clone();
-    (pick(&doms), ops_strategy(&table, len))
-        .prop_map(move |((lo, dlen, rt), ops)| {
+    (pick(&doms), ops_strategy(&table, len), 0..8u8)
+        .prop_map(move |((lo, dlen, rt), ops, edge)| {
             let mut c = Case::new(prop, "seg");
             c.set("lo", lo).set("len", dlen).set("rtype", rt);
+            if edge == 0 {
+                // the last ticks of the expiration type
+                c.set("clock0", i32::MAX as i64 - 3);
+            }
             c.ops = ops;
             c
         })
@@ -349,6 +359,9 @@ pub fn seg_clear_cases(prop: &'static str) -> BoxedStrategy<Case> {
         .prop_map(move |((lo, dlen, rt), a, c0, b)| {
             let mut c = Case::new(prop, "seg");
             c.set("lo", lo).set("len", dlen).set("rtype", rt);
+            if (a.len() + b.len()) % 7 == 0 {
+                c.set("clock0", i32::MAX as i64 - 3);
+            }
             c.ops = a;
             c.ops.push(RawOp::new(S_CLEAR, &[c0]));
             c.ops.extend(b);
